@@ -8,7 +8,8 @@ import (
 )
 
 // debugDump prints the event graph of one scenario (developer aid):
-//   bornocheck -debug 'clause:*ast.While'   |  func:interpreter.(*Function).Call
+//
+//	bornocheck -debug 'clause:*ast.While'   |  func:interpreter.(*Function).Call
 func debugDump(p *Prog, what string) {
 	var g *Graph
 	var und []string
@@ -216,5 +217,21 @@ func init() {
 		} else {
 			printGraph(m.G)
 		}
+	}
+}
+
+func init() {
+	debugHooks["fingerprints"] = func(p *Prog, what string) {
+		fmt.Println("package main")
+		fmt.Println()
+		fmt.Println("// generated by `bornocheck -debug fingerprints` on the tree the rules were confirmed on (seeded/BASE)")
+		fmt.Println("var expectedFuncs = map[string]string{")
+		for _, fn := range p.ModuleFuncs() {
+			if fn.Parent() != nil || strings.Contains(fn.Synthetic, "package initializer") {
+				continue
+			}
+			fmt.Printf("\t%q: %q,\n", p.rawFuncKey(fn), fingerprint(p, fn))
+		}
+		fmt.Println("}")
 	}
 }
